@@ -38,9 +38,11 @@ DRIVER = E.DRIVER
 REQUIRED_THEOREMS = ["in_step_foreign_is_silent", "out_step_foreign_is_silent", "sig_step_foreign_is_silent",
                      "foreign_transaction_invisible", "mux_passes_selected", "at_most_one_answers",
                      "sig_cycle_refines_event", "sig_cycle_refines_run", "in_cycle_refines_event", "in_cycle_refines_run",
-                     "out_cycle_refines_event", "out_cycle_refines_run", "out_cycle_refines_legal"]
+                     "out_cycle_refines_event", "out_cycle_refines_run", "out_cycle_refines_legal", "segOkStrict_imp"]
 RULE = ("dev: adaptive legal host schedules (IN/OUT/PING on 5 endpoints, unowned tokens, other devices, lost "
-        "handshakes, retries, wrong PIDs, bad CRCs, control transfers incl. CLEAR_FEATURE(ENDPOINT_HALT)) on a "
+        "handshakes, retries, wrong PIDs, bad CRCs, control transfers incl. CLEAR_FEATURE(ENDPOINT_HALT); bus packets "
+        "longer than an OUT endpoint's max packet size: SETUP packets, packets for the other OUT endpoint, OUT packets of "
+        "up to 65 bytes for unowned endpoints / other devices) on a "
         "random endpoint layout, each re-run with the foreign traffic deleted for 3 target endpoints; several times "
         "per schedule the twin scenario: the IN and the OUT endpoint sharing a number are brought to DATA1 (either or "
         "both), then CLEAR_FEATURE(ENDPOINT_HALT) names one of them (or an endpoint with another number / a number "
@@ -56,8 +58,10 @@ ASSUMPTIONS = [
     "out_cycle_refines_event/_run (C12Out.EvOk / histOk): a data packet received while the token registers name the endpoint "
     "follows a token accepted by this device and fits its FIFO; the clock cycles of every data packet are a transaction of "
     "C13's LegalHost acceptor (any byte spacing, any response delay >= 1, one response request "
-    "for a CRC-valid packet, none for a corrupted one); every packet on the bus, also for other endpoints, is no longer "
-    "than this endpoint's max packet size (C13's acceptor; 8-byte SETUP packets: max_packet_size >= 8); the consumer "
+    "for a CRC-valid packet, none for a corrupted one); a packet is bounded by the endpoint's max packet size only while "
+    "the token registers name the endpoint (OUT) -- the packets of all other transactions on the bus (other endpoints, "
+    "other devices, the 8-byte SETUP packets next to a 4-byte endpoint) may have ANY length (C13's acceptor, lenOk; "
+    "segOkStrict = the former hypothesis bounding every bus packet, segOkStrict_imp); the consumer "
     "reads between transactions and its last read is finalised one cycle later",
 ]
 PARTIAL = ("foreign_transaction_invisible is proved on the event-level model (tied to the real device by event-level "
@@ -66,8 +70,8 @@ PARTIAL = ("foreign_transaction_invisible is proved on the event-level model (ti
            "status endpoint (sig_cycle_refines_event / _run, little-endian configuration), stream IN endpoint "
            "(in_cycle_refines_event / _run over C11's InXfer model with both packet memories; flush = discard = 0, producer "
            "bytes between transactions) and stream OUT endpoint (out_cycle_refines_event / _run over C13's model and "
-           "acceptor, incl. OUT transactions addressed to another device; bus packets longer than the endpoint's max packet "
-           "size are outside its hypotheses); the refinement lemmas are per endpoint (slice machine control "
+           "acceptor, incl. OUT transactions addressed to another device and bus packets of ANY length for other "
+           "endpoints / devices / SETUP transactions); the refinement lemmas are per endpoint (slice machine control "
            "endpoint x endpoint), not yet composed into one cycle-level whole-device statement")
 
 I, O, P, S = U.PID_IN, U.PID_OUT, U.PID_PING, U.PID_SETUP
